@@ -346,6 +346,23 @@ def dsk7(ctx, c):
                           "and its granules stay marked in the FAT" % U(n.value)[:90], repo.loc(af, n))
             else:
                 c.undecided("add_file:directory-slot", "slot-source-not-recognised", U(n.value)[:80], repo.loc(af, n))
+    # every definition of the slot variable that reaches write_dir_entry is the free-slot search
+    wd_calls = [x for x in ast.walk(af_flat) if isinstance(x, ast.Call) and U(x.func).endswith(".write_dir_entry") and x.args and isinstance(x.args[0], ast.Name)]
+    if wd_calls:
+        sv = wd_calls[0].args[0].id
+        defs = [n for n in ast.walk(af_flat) if isinstance(n, ast.Assign) and U(n.targets[0]) == sv]
+        def from_search(value, depth=0):
+            if any(x in slot_calls for x in ast.walk(value)) or isinstance(value, ast.Constant):
+                return True
+            if isinstance(value, ast.Name) and depth < 4:
+                ds = [n for n in ast.walk(af_flat) if isinstance(n, ast.Assign) and U(n.targets[0]) == value.id]
+                return bool(ds) and all(from_search(d.value, depth + 1) for d in ds)
+            return False
+        other = [n for n in defs if not from_search(n.value)]
+        if other:
+            c.finding("add_file:directory-slot", "the slot can come from somewhere other than the free-slot search",
+                      "add_file also takes the directory slot from `%s`: a slot that is in use can be chosen, the file stored there vanishes from the directory "
+                      "and its granules stay marked in the FAT" % U(other[0].value)[:90], repo.loc(af, other[0]))
     # directory_entry_in_use: 0x00 and 0xFF free
     du = repo.method(CLS, "directory_entry_in_use")
     for r in _returned_tests(du.node):
@@ -526,7 +543,11 @@ def dsk2(ctx, c):
         k = ("adv", adv)
         if k not in seen:
             seen.add(k)
-            c.check(adv == D.DIR_ENTRY_LEN, "list_files:advance", "32 per entry", "advances %s per entry" % (repr(pv) if adv is None else adv),
+            if adv is None or adv == 0:
+                # no running pointer (entries addressed as base + 32 * n, judged through the field offsets below)
+                c.undecided("list_files:advance", "no-running-pointer", repr(pv), wl)
+            else:
+              c.check(adv == D.DIR_ENTRY_LEN, "list_files:advance", "32 per entry", "advances %s per entry" % (repr(pv) if adv is None else adv),
                     "list_files advances %s bytes over a directory entry of 32" % (repr(pv) if adv is None else adv), wl)
         cf = o.path.env.get("coco_file")
         if not (isinstance(cf, Ctor) and cf.cls == "CoCoFile"):
@@ -703,23 +724,59 @@ def dsk4(ctx, c):
     where = repo.loc(fn, fn.node)
     params = [p for p in fn.params if p != "self"]
     p_list, p_sect = params[0], params[1]
+    # decided by folding the method for four allocation lists: the stores into the buffer are exactly the chain and its terminator
+    from ..consteval import fold_body as _fb4, NotConst as _N4, Raised as _R4
+    from ..inline import flatten as _fl4
+    folded_ok = None
+    try:
+        body4 = body_without_doc(_fl4(repo, fn, depth=2))
+        wrong4 = None
+        for lst in ([7], [10, 11], [10, 30, 2, 67], [0, 67, 33]):
+            buf = {}
+            env4 = dict(ctx.env)
+            env4.update({p_list: list(lst), p_sect: 5, "self.buffer": buf})
+            for extra in params[2:]:
+                env4.setdefault(extra, None)
+            _fb4(body4, env4)
+            want4 = {D.FAT_OFFSET + a: b for a, b in zip(lst, lst[1:])}
+            want4[D.FAT_OFFSET + lst[-1]] = D.FAT_LAST_BASE + 5
+            if buf != want4:
+                diff = sorted(set(buf.items()) ^ set(want4.items()))[:3]
+                wrong4 = (lst, [("FAT[%d]" % (k - D.FAT_OFFSET), "%#04x" % v if isinstance(v, int) else v) for k, v in sorted(buf.items())][:6],
+                          [("FAT[%d]" % (k - D.FAT_OFFSET), "%#04x" % v) for k, v in sorted(want4.items())][:6])
+                break
+        folded_ok = wrong4 is None
+        if wrong4:
+            c.finding("write_to_fat:chain", "for the granule list %s the FAT stores are %s" % (wrong4[0], wrong4[1]),
+                      "write_to_fat, folded for the allocation list %s with 5 sectors in the last granule, stores %s; the chain is %s (each granule's byte = its successor, the last = C0 + sectors)"
+                      % wrong4, where)
+        else:
+            c.ok("write_to_fat:chain", "links and terminator exact for four allocation lists", where)
+            c.ok("write_to_fat:terminator", "FAT[last] = C0 + sectors", where)
+            c.ok("write_to_fat:links", "FAT[g_i] = g_{i+1} for all but the last", where)
+    except (_N4, _R4, KeyError, TypeError, IndexError) as e:
+        folded_ok = None
     term = None
     link = None
-    for o in res:
+    for o in (res if folded_ok is None else []):
         for st in o.path.env.get("$stores", ()):
             if st[0] == "store":
                 term = (repr(st[1]), repr(st[2]))
             else:
                 for b in st[3]:
                     link = (repr(b[1]), repr(b[2]), U(st[5].iter), U(st[5].target))
-    if term is None:
+    if folded_ok is not None:
+        pass
+    elif term is None:
         c.undecided("write_to_fat:terminator", "store-not-found", "", where)
     else:
         idx_ok = ("%s[-1]" % p_list) in term[0] and str(D.FAT_OFFSET) in term[0].replace("0x%x" % D.FAT_OFFSET, str(D.FAT_OFFSET))
         val_ok = term[1] in ("Lin(%s+%d)" % (p_sect, D.FAT_LAST_BASE),)
         c.check(idx_ok and val_ok, "write_to_fat:terminator", "FAT[last] = C0 + sectors", "FAT[%s] = %s" % term,
                 "write_to_fat must store C0 + (sectors used in the last granule) in the last granule's FAT byte; it stores %s at %s" % (term[1], term[0]), where)
-    if link is None:
+    if folded_ok is not None:
+        pass
+    elif link is None:
         c.undecided("write_to_fat:links", "loop-not-found", "", where)
     else:
         idx, val, it_text, tgt = link
@@ -1133,12 +1190,64 @@ def vf6(ctx, c):
     elif gate is None:
         c.finding("list_files:size-gate", "no size test", "DiskFile.list_files accepts a buffer of any size as a disk image (sniffing relies on it raising for short buffers)", wl)
     else:
+        # decide by folding the test for four buffer lengths (locals bound to constants in the same function are taken along)
+        import copy as _cpg
+        from ..consteval import fold as _fg, NotConst as _Ng
+
+        class _BufLen(ast.NodeTransformer):
+            def visit_Call(self, node):
+                self.generic_visit(node)
+                if U(node) == "len(self.buffer)":
+                    return ast.copy_location(ast.Name(id="__len", ctx=ast.Load()), node)
+                return node
+        envg = dict(ctx.env)
+        for a_ in ast.walk(lf_flat):
+            if isinstance(a_, ast.Assign) and isinstance(a_.targets[0], ast.Name):
+                v_ = try_fold(a_.value, envg)
+                if isinstance(v_, int):
+                    envg[a_.targets[0].id] = v_
+        tg = _BufLen().visit(_cpg.deepcopy(gate.test))
+        try:
+            table = [(L, bool(_fg(tg, dict(envg, __len=L)))) for L in (0, D.IMAGE_SIZE - 1, D.IMAGE_SIZE, D.IMAGE_SIZE + 4608)]
+        except _Ng as e:
+            c.undecided("list_files:size-gate", "size-test-not-foldable", str(e)[:60], repo.loc(lf, gate))
+            table = None
         op = type(gate.test.ops[0]).__name__
-        k = try_fold(gate.test.comparators[0], ctx.env)
-        good = op == "Lt" and k == D.IMAGE_SIZE
-        c.check(good, "list_files:size-gate", "rejects buffers shorter than 161280", "rejects when len %s %s" % (op, k),
+        k = try_fold(gate.test.comparators[0], envg)
+        good = table is not None and [r for _, r in table] == [True, True, False, False]
+        if table is not None:
+          c.check(good, "list_files:size-gate", "rejects buffers shorter than 161280", "rejects when len %s %s" % (op, k),
                 "DiskFile.list_files rejects a buffer when len(buffer) %s %s; a disk image is any buffer of at least 161,280 bytes (35 tracks; larger images exist), "
                 "a rejected disk image is then sniffed as another kind" % (op, k), repo.loc(lf, gate))
+    # a validation error raised while listing is read by the sniffer as "not a disk": a plausibility test on a stored file must not refuse
+    # values the format allows (a program may end at $FFFF: load + length = $10000)
+    from ..consteval import fold as _f3, NotConst as _N3
+    import copy as _cp
+
+    class _SumSub(ast.NodeTransformer):
+        def visit_BinOp(self, node):
+            self.generic_visit(node)
+            if isinstance(node.op, ast.Add) and "load_addr" in U(node) and ("length" in U(node) or "len(" in U(node)):
+                return ast.copy_location(ast.Name(id="__end", ctx=ast.Load()), node)
+            return node
+    for n in ast.walk(lf_flat):
+        if isinstance(n, ast.If) and n.body and isinstance(n.body[-1], ast.Raise) and "load_addr" in U(n.test) and ("length" in U(n.test)):
+            worst = None
+            for cmp_ in [x for x in ast.walk(n.test) if isinstance(x, ast.Compare)]:
+                t2 = _SumSub().visit(_cp.deepcopy(cmp_))
+                if "__end" not in U(t2):
+                    continue
+                try:
+                    if _f3(t2, dict(ctx.env, __end=0x10000)):
+                        worst = U(cmp_)
+                except _N3:
+                    pass
+            if worst:
+                c.finding("list_files:address-space", "a file ending at $FFFF is refused (%s)" % worst[:60],
+                          "DiskFile.list_files raises a validation error when `%s`; load + length = $10000 is a file whose last byte is at $FFFF. The sniffer takes the error for "
+                          "'not a disk image', the bytes are then listed as an empty cassette and the kind-mismatch / overwrite protection no longer sees a disk" % worst, repo.loc(lf, n))
+            else:
+                c.ok("list_files:address-space", "plausibility test accepts a file ending at $FFFF", repo.loc(lf, n))
 
 
 
@@ -1244,6 +1353,62 @@ def dsk8(ctx, c):
             c.undecided(site, "pipeline-not-evaluable", "%s; not evaluated: %s" % (problems[0], "; ".join(sorted(set(notes)))[:100]), where)
         else:
             c.finding(site, problems[0][:110], "DiskFile.add_file evaluated for a %s file: %s" % (kind, "; ".join(problems)), where)
+    # an empty file still gets its directory entry, its header / trailer bytes and its FAT chain: every step runs for zero data bytes too
+    for kind, t_int, d_int in (("machine-language", 0x02, 0x00), ("BASIC", 0x00, 0x00)):
+        env = dict(ctx.env)
+        for cn in classes + ["VirtualFileValidationError"]:
+            env[cn] = ClsRef(cn)
+        env.update({"%s.type.int" % p_file: t_int, "%s.data_type.int" % p_file: d_int, "%s.data" % p_file: []})
+        events, notes = [], []
+
+        def resolver2(name):
+            f_ = repo.lookup(repo.cls(CLS), name)
+            return f_.node if f_ is not None else None
+        run_concrete(body_without_doc(flat), env, events, notes, workers=WORKERS, resolver=resolver2)
+        made = {e[2] for e in events if e[0] == "call" and e[1] == "self"}
+        missing = [m_ for m_ in ("write_dir_entry", "write_to_granules", "write_to_fat") if m_ not in made]
+        site = "add_file[empty %s]" % kind
+        if not missing:
+            c.ok(site, "directory entry, header/trailer and FAT written for a file without data", where)
+        elif notes:
+            c.undecided(site, "pipeline-not-evaluable", "%s not called; not evaluated: %s" % (missing, "; ".join(sorted(set(notes)))[:80]), where)
+        else:
+            c.finding(site, "%s is not called for a file without data" % ", ".join(missing),
+                      "DiskFile.add_file evaluated for a %s file with no data bytes: %s is skipped, although the granule is allocated and entered in the directory and the FAT - "
+                      "the header%s never reaches the granule, so the stored stream is not what the directory and FAT describe" % (kind, ", ".join(missing), " and trailer" if t_int == 2 else ""), where)
+    # the length functions are given the header and trailer chosen for the file's kind, never a fixed kind for every file
+    for f_ in repo.cls(CLS).methods.values():
+        for x in ast.walk(f_.node):
+            if isinstance(x, ast.Call) and U(x.func).split(".")[-1] in ("calculate_granules_needed", "calculate_last_sector_bytes_used", "calculate_last_granules_sectors_used") and len(x.args) >= 3:
+                fixed = [a for a in x.args[1:3] if isinstance(a, ast.Call) and U(a.func) in ("MLPreamble", "BasicPreamble", "ASCIIPreamble", "Postamble")]
+                if fixed:
+                    c.finding("%s:length-kind" % f_.q, "sizes every file with %s" % ", ".join(U(a) for a in fixed),
+                              "%s calls %s with %s for whatever file it is given: BASIC and ASCII files have a shorter header and no trailer, so their granule count is over-estimated "
+                              "and lists that fit are refused (or, used for layout, space is wasted)" % (f_.q, U(x.func), ", ".join(U(a) for a in fixed)), repo.loc(f_, x))
+    # a raising size guard must not refuse a length the format can represent (the header's length field is 16 bits: 0..65535)
+    import copy as _copy
+
+    class _LenSub(ast.NodeTransformer):
+        def visit_Call(self, node):
+            self.generic_visit(node)
+            if U(node.func) == "len" and node.args and U(node.args[0]).endswith(".data"):
+                return ast.copy_location(ast.Name(id="__len", ctx=ast.Load()), node)
+            return node
+    from ..consteval import fold as _fold2, NotConst as _NC3
+    for n in ast.walk(flat):
+        if isinstance(n, ast.If) and n.body and isinstance(n.body[-1], ast.Raise) and "len(" in U(n.test) and ".data" in U(n.test) and not any(
+                isinstance(x, ast.Name) and x.id not in (p_file,) for x in ast.walk(n.test) if isinstance(x, ast.Name) and x.id not in ("len",)):
+            t2 = _LenSub().visit(_copy.deepcopy(n.test))
+            try:
+                refused = [L for L in (0, 1, 255, 2304, 65534, 65535) if _fold2(t2, dict(ctx.env, __len=L))]
+            except _NC3:
+                continue
+            if refused:
+                c.finding("add_file:size-guard", "a file of %d bytes is refused" % refused[-1],
+                          "add_file raises when `%s`, which refuses a file of %d bytes: the length field holds 0..65535 and such a file fits on an empty disk" % (U(n.test), refused[-1]),
+                          repo.loc(af, n))
+            else:
+                c.ok("add_file:size-guard", "no representable length is refused", repo.loc(af, n))
     # the allocation loop stops at exactly the number needed
     for n in ast.walk(flat):
         if isinstance(n, ast.While) and isinstance(n.test, ast.Compare) and len(n.test.ops) == 1 and "len(" in U(n.test) and "needed" in U(n.test):
@@ -1263,6 +1428,149 @@ def dsk8(ctx, c):
 RULES = {"DSK-8": dsk8, "DSK-13": dsk13, "VF-6": vf6, "DSK-1": dsk1, "DSK-2": dsk2, "DSK-3": dsk3, "DSK-4": dsk4, "DSK-6": dsk6, "DSK-7": dsk7, "DSK-12": dsk12}
 
 
+
+def _eval_write_to_granules(ctx, c, fn, where, params):
+    """write_to_granules evaluated in the length domain: the data is a sequence of known length, granules are laid at fake addresses
+    g * 100000, the workers that move the pointer return pointer + length.  Returns True when every configuration was evaluated."""
+    from ..concrete import Obj, Seq, ClsRef, Desc, run_concrete, show
+    repo = ctx.repo
+    G = D.GRANULE_LEN
+    SPAN = 100000
+
+    def resolver(name):
+        f_ = repo.lookup(repo.cls(CLS), name)
+        return f_.node if f_ is not None else None
+    p_data, p_gran, p_pre, p_post = params[:4]
+    results = []
+    all_notes = []
+    for kind, pre_len, has_post in (("ML", 5, True), ("BASIC", 3, False), ("ASCII", 0, False)):
+        cap0 = G - pre_len
+        for L in sorted({0, 1, cap0 - 6, cap0 - 5, cap0 - 4, cap0 - 1, cap0, cap0 + 1, cap0 + G - 1, cap0 + G, cap0 + G + 1, 5000}):
+            if L < 0:
+                continue
+            grans = [10, 30, 2, 67]
+            pre = Obj("Preamble", label="<preamble>")
+            pre.attrs["length"] = pre_len
+            post = None
+            if has_post:
+                post = Obj("Postamble", label="<postamble>")
+                post.attrs["length"] = 5
+            writes = []
+
+            def wb(avals, _w=writes):
+                ptr, seq = avals[0], avals[1]
+                n_ = seq.length if isinstance(seq, Seq) else (len(seq) if isinstance(seq, (list, tuple)) else None)
+                _w.append(("data", ptr, seq))
+                return ptr + n_ if isinstance(ptr, int) and n_ is not None else Desc("pointer")
+
+            def hw(r, avals, _w=writes):
+                ptr = avals[1] if len(avals) > 1 else None
+                _w.append(("pre" if r is pre else "post", ptr, r.attrs.get("length")))
+                return ptr + r.attrs.get("length", 0) if isinstance(ptr, int) else Desc("pointer")
+            hooks = {("self", "seek_granule"): lambda a: a[0] * SPAN if a and isinstance(a[0], int) else Desc("seek"),
+                     ("self", "write_bytes_to_buffer"): wb, ("*", "write"): hw}
+            env = dict(ctx.env)
+            env.update({p_data: Seq(L), p_gran: list(grans), p_pre: pre if pre_len else (pre if kind != "ASCII" else pre), p_post: post, "self.buffer": Desc("self.buffer")})
+            if kind == "ASCII":
+                # an ASCII file has a preamble object of length 0
+                pass
+            for extra in params[4:]:
+                pass
+            defaults = fn.node.args.defaults
+            allp = [a.arg for a in fn.node.args.args if a.arg != "self"]
+            for p_, d_ in zip(allp[len(allp) - len(defaults):], defaults):
+                v_ = try_fold(d_, ctx.env)
+                env.setdefault(p_, v_)
+            events, notes = [], []
+            end = run_concrete(body_without_doc(fn.node), env, events, notes, workers=("seek_granule", "write_bytes_to_buffer"), resolver=resolver, hooks=hooks)
+            all_notes += notes
+            results.append((kind, pre_len, has_post, L, writes, end))
+    if all_notes:
+        return False
+    problems = {}
+    spill_max = {}
+
+    def note(site, fact, text):
+        problems.setdefault(site, (fact, text))
+    for kind, pre_len, has_post, L, writes, end in results:
+        tag = "%s file of %d data bytes" % (kind, L)
+        if end and end.startswith("raise"):
+            note("write_to_granules:continuity", "ends in %s" % end, "%s: write_to_granules ends in %s" % (tag, end))
+            continue
+        pos = 0
+        order = []
+        for w in writes:
+            if not isinstance(w[1], int):
+                note("write_to_granules:granule", "write position not derived from seek_granule", "%s: a write goes to %s" % (tag, show(w[1])))
+                continue
+            g_, off = divmod(w[1], 100000)
+            order.append(g_)
+            if w[0] == "pre":
+                if (g_, off) != (10, 0):
+                    note("write_to_granules:preamble", "the header is written at granule %d offset %d" % (g_, off), "%s: the header goes to granule %d offset %d, not the start of the first granule" % (tag, g_, off))
+            elif w[0] == "data":
+                seq = w[2]
+                n_ = seq.length if hasattr(seq, "length") else 0
+                start = seq.start if hasattr(seq, "start") else None
+                if n_ and start != pos:
+                    note("write_to_granules:continuity", "a chunk starts at data offset %s where %d is next" % (start, pos),
+                         "%s: the chunk written to granule %d starts at data offset %s; %d bytes were written before it" % (tag, g_, start, pos))
+                if off + n_ > D.GRANULE_LEN:
+                    note("write_to_granules:capacity", "a chunk of %d bytes at offset %d overruns the granule by %d" % (n_, off, off + n_ - D.GRANULE_LEN),
+                         "%s: %d bytes are written at offset %d of granule %d, %d more than the granule holds: they land in the next granule on the disk, which belongs to another file or to nobody"
+                         % (tag, n_, off, g_, off + n_ - D.GRANULE_LEN))
+                want_off = pre_len if (g_ == 10) else 0
+                if n_ and off != want_off:
+                    note("write_to_granules:preamble" if g_ == 10 else "write_to_granules:granule", "data starts at offset %d of granule %d" % (off, g_),
+                         "%s: data is written at offset %d of granule %d (expected %d: %s)" % (tag, off, g_, want_off, "right behind the header" if g_ == 10 else "the start of the granule"))
+                pos += n_
+            elif w[0] == "post":
+                if off + (w[2] or 0) > D.GRANULE_LEN:
+                    if L <= D.GRANULE_LEN - pre_len:
+                        spill_max[kind] = max(spill_max.get(kind, -1), L)
+                    else:
+                        spill_max.setdefault(kind, -1)
+                if pos != L:
+                    note("write_to_granules:trailer-order", "the trailer is written after %d of %d data bytes" % (pos, L), "%s: the trailer is written before all data" % tag)
+        if pos != L:
+            note("write_to_granules:continuity", "%d of %d data bytes are written" % (pos, L), "%s: only %d bytes are written" % (tag, pos))
+        if has_post and sum(1 for w in writes if w[0] == "post") != 1:
+            note("write_to_granules:recursion", "the trailer is written %d times" % sum(1 for w in writes if w[0] == "post"), "%s: the trailer must be written exactly once, after the data" % tag)
+        # granules are used in list order, each at most once for data
+        seqg = []
+        for g_ in order:
+            if not seqg or seqg[-1] != g_:
+                seqg.append(g_)
+        if seqg != [10, 30, 2, 67][:len(seqg)]:
+            note("write_to_granules:granule", "granules used in order %s" % seqg, "%s: the chunks go to granules %s; the allocation list is [10, 30, 2, 67]" % (tag, seqg))
+    for site in ("write_to_granules:capacity", "write_to_granules:preamble", "write_to_granules:granule", "write_to_granules:continuity", "write_to_granules:recursion"):
+        if site in problems:
+            c.finding(site, problems[site][0][:110], "write_to_granules evaluated over data lengths around the granule boundaries: %s" % problems[site][1], where)
+        else:
+            c.ok(site, "decided by evaluation over %d (file kind, length) configurations" % len(results), where)
+    if "write_to_granules:trailer-order" in problems:
+        c.finding("write_to_granules:trailer-order", problems["write_to_granules:trailer-order"][0], problems["write_to_granules:trailer-order"][1], where)
+    # the recorded defect: the trailer is put right behind the data even when fewer than 5 bytes of the granule are left
+    if spill_max:
+        cap0 = D.GRANULE_LEN - 5
+        maxdata = "capacity - 1" if spill_max.get("ML") == cap0 - 1 else ("capacity" if spill_max.get("ML") == cap0 else str(spill_max.get("ML")))
+        c.finding("write_to_granules:trailer", "data of up to %s bytes fits; the 5-byte trailer is written right behind it with no check against the granule end" % maxdata,
+                  "write_to_granules puts the whole data into the granule when it is shorter than the room left and then writes the postamble at the following bytes: "
+                  "when fewer than 5 bytes are left the trailer spills past the granule into bytes that belong to no chain granule "
+                  "(a 4600-byte ML file puts its last two trailer bytes at 78336-78337; 4603 bytes do not read back)", where)
+    else:
+        c.ok("write_to_granules:trailer", "the trailer never crosses the end of a granule", where)
+    exact = [r for r in results if r[0] == "ML" and r[3] == D.GRANULE_LEN - 5]
+    if exact:
+        data_gr = {divmod(w[1], 100000)[0] for w in exact[0][4] if w[0] == "data" and isinstance(w[1], int) and getattr(w[2], "length", 0)}
+        post_gr = {divmod(w[1], 100000)[0] for w in exact[0][4] if w[0] == "post" and isinstance(w[1], int)}
+        if post_gr and data_gr and post_gr == {10}:
+            c.finding("write_to_granules:fit", "fit test uses LtE", "write_to_granules treats data that exactly fills the granule as fitting: the trailer then starts at the first byte "
+                      "after the granule, which is the next chain granule only by accident", where)
+        else:
+            c.ok("write_to_granules:fit", "a chunk that exactly fills the granule continues in the next one", where)
+    return True
+
 def dsk5(ctx, c):
     """DSK-5 granule-bounded placement of data and trailer; DSK-11 chunk continuity writer/reader; DSK-8 empty files."""
     repo = ctx.repo
@@ -1270,6 +1578,10 @@ def dsk5(ctx, c):
     where = repo.loc(fn, fn.node)
     params = [p for p in fn.params if p != "self"]
     p_data, p_gran, p_pre, p_post = params[:4]
+    writer_decided = _eval_write_to_granules(ctx, c, fn, where, params)
+    if writer_decided:
+        _dsk5_reader(ctx, c)
+        return
     fit = None
     for n in body_without_doc(fn.node):
         if isinstance(n, ast.If) and isinstance(n.test, ast.Compare) and U(n.test.left) == "len(%s)" % p_data:
@@ -1351,12 +1663,29 @@ def dsk5(ctx, c):
     c.check(op == "Lt", "write_to_granules:fit", "a chunk that exactly fills the granule continues in the next one", "fit test uses %s" % op,
             "write_to_granules treats data that exactly fills the granule as fitting (%s): the trailer then starts at the first byte after the granule, which is the next chain granule only by accident" % op,
             repo.loc(fn, fit))
+    _dsk5_reader(ctx, c)
+
+
+def _dsk5_reader(ctx, c):
+    repo = ctx.repo
     # reader capacity and link
     rd = repo.method(CLS, "read_data")
     wr_ = repo.loc(rd, rd.node)
     t = U(rd.node)
     good = re.search(r"chunk_size = DiskConstants\.HALF_TRACK_LEN", t) and re.search(r"if preamble:\s+pointer \+= preamble\.length\s+chunk_size -= preamble\.length", t)
-    c.shape(bool(good), "read_data:capacity", "first-granule capacity = granule length - preamble length (as the writer)", "capacity computation not recognised", wr_)
+    adj = None
+    for n_ in ast.walk(rd.node):
+        if isinstance(n_, ast.If) and "preamble" in U(n_.test):
+            incs = [x for x in n_.body if isinstance(x, ast.AugAssign) and isinstance(x.op, ast.Add) and "pointer" in U(x.target)]
+            decs = [x for x in n_.body if isinstance(x, ast.AugAssign) and isinstance(x.op, ast.Sub) and "chunk" in U(x.target)]
+            if len(incs) == 1 and len(decs) == 1:
+                adj = (U(incs[0].value), U(decs[0].value), n_)
+    if adj and adj[0] != adj[1]:
+        c.finding("read_data:capacity", "the pointer moves by %s, the room left shrinks by %s" % (adj[0], adj[1]),
+                  "read_data steps over the header by `%s` but takes `%s` off the room left in the first granule: for header kinds where the two differ the reader changes granule "
+                  "too early or too late and every byte after the first granule is misplaced" % (adj[0], adj[1]), repo.loc(rd, adj[2]))
+    else:
+        c.shape(bool(good), "read_data:capacity", "first-granule capacity = granule length - preamble length (as the writer)", "capacity computation not recognised", wr_)
     multi = next((n for n in ast.walk(rd.node) if isinstance(n, ast.If) and isinstance(n.test, ast.Compare) and "chunk_size" in U(n.test)), None)
     if multi is None:
         c.undecided("read_data:split", "split-test-not-found", "", wr_)
